@@ -14,6 +14,13 @@ Normal increments — their second moments enter the effective part), symbolic p
 and symbolic initial values, sequential vs simultaneous assignment.  About one program in five is
 perturbed (the cancellation is destroyed for one coefficient) so that the search also meets loops
 without the engineered invariant.
+
+Two further families aim at the *initial value* and the *summation* of the closed form:
+`dep-init` — the init block draws / chooses the value of x (choice, Bernoulli, DiscreteUniform) and derives y
+(and sometimes z) from it by a polynomial, so that E(x^a y^b)(0) != E(x^a)(0)·E(y^b)(0); the body has no effective
+part (Q' = k·Q, hence Q**2, with its mixed monomial x*y, is an invariant too) and the search runs at degree 2;
+`kzero` — k = 0 (Q' contains no multiple of Q) with an effective part polynomial in a counter, the case in
+which sympy leaves `Sum(0**j ...)` unevaluated.
 """
 from fractions import Fraction as Fr
 
@@ -24,7 +31,8 @@ PQ = [1, 2, -1, 3, -2]
 CONSTS = [Fr(0), Fr(1), Fr(-1), Fr(2), Fr(1, 2), Fr(3)]
 INITS = [Fr(0), Fr(1), Fr(2), Fr(-1), Fr(1, 2), Fr(3)]
 
-FAMILIES = ["det", "det", "choice-eff", "choice-coef", "bern-coef", "walk", "normal", "param", "three"]
+FAMILIES = ["det", "dep-init", "choice-eff", "choice-coef", "bern-coef", "walk", "normal", "param", "three",
+            "kzero", "dep-init", "det"]
 
 
 def _lin(r, zs, allow_sq):
@@ -55,7 +63,10 @@ def generate(r, idx, family=None):
     init, body = [], []
 
     # ---- effective variable --------------------------------------------------------------------
+    if fam == "kzero":
+        k = Fr(0)
     zkind = {"det": r.choice(["toggle", "counter", "geom", "none"]),
+             "dep-init": "none", "kzero": "counter",
              "choice-eff": r.choice(["toggle", "counter", "bern"]),
              "choice-coef": r.choice(["toggle", "none", "counter"]),
              "bern-coef": r.choice(["counter", "none", "toggle"]),
@@ -104,13 +115,38 @@ def generate(r, idx, family=None):
         feats.add("effective-square")
 
     # ---- initial values of the defective variables ----------------------------------------------
-    for v in ("x", "y"):
-        if r.random() < 0.5:
-            init.append(H.assign(v, H.ex(H.num(r.choice(INITS)))))
+    if fam == "dep-init":
+        kind = r.choice(["choice", "bernoulli", "duniform", "choice3"])
+        feats.add("init:" + kind)
+        if kind == "choice":
+            a, b = r.sample([Fr(1), Fr(3), Fr(-1), Fr(2), Fr(0), Fr(1, 2)], 2)
+            w = r.choice([Fr(1, 2), Fr(1, 3), Fr(3, 4)])
+            rx0 = ("choice", [(H.num(a), H.num(w)), (H.num(b), H.num(1 - w))])
+        elif kind == "choice3":
+            rx0 = ("choice", [(H.num(1), H.num(Fr(1, 2))), (H.num(2), H.num(Fr(1, 4))), (H.num(-2), H.num(Fr(1, 4)))])
+        elif kind == "bernoulli":
+            rx0 = ("dist", "Bernoulli", [H.num(r.choice([Fr(1, 2), Fr(1, 3), Fr(3, 4)]))])
         else:
-            feats.add("symbolic-init")
+            lo = r.choice([0, 1, -1])
+            rx0 = ("dist", "DiscreteUniform", [H.num(lo), H.num(lo + r.choice([1, 2, 3]))])
+        first, second = r.choice([("x", "y"), ("y", "x")])
+        init.append(H.assign(first, rx0))
+        dep = r.choice([H.mul(H.num(2), H.var(first)), H.add(H.var(first), H.num(1)), H.pw(H.var(first), 2),
+                        H.sub(H.num(1), H.var(first)), H.add(H.mul(H.num(-1), H.var(first)), H.pw(H.var(first), 2))])
+        init.append(H.assign(second, H.ex(dep)))
+    else:
+        for v in ("x", "y"):
+            if r.random() < 0.5:
+                init.append(H.assign(v, H.ex(H.num(r.choice(INITS)))))
+            else:
+                feats.add("symbolic-init")
 
     L1, L2 = _lin(r, zs, allow_sq), _lin(r, zs, allow_sq)
+    if fam == "dep-init":
+        L1 = L2 = H.num(0)          # Q' = k·Q exactly, so Q**2 (mixed monomial x*y) is an invariant as well
+    if fam == "kzero":
+        allow_sq = True
+        L1, L2 = _lin(r, zs, True), _lin(r, zs, r.random() < 0.5)
     if fam == "param" and "pp" not in params or (fam == "param" and r.random() < 0.5):
         params.append("cc")
         L1 = H.add(L1, H.mul(H.var("cc"), H.var("z") if zs else H.num(1)))
@@ -121,7 +157,7 @@ def generate(r, idx, family=None):
     N = _N(r, style)
     kx = H.mul(H.num(k), H.var("x"))
     ky = H.mul(H.num(k), H.var("y"))
-    perturbed = r.random() < 0.2
+    perturbed = r.random() < 0.2 and fam not in ("dep-init", "kzero")
     ky_used = H.mul(H.num(k + (1 if perturbed else 0)), H.var("y")) if perturbed else ky
     if perturbed:
         feats.add("perturbed")
@@ -173,7 +209,7 @@ def generate(r, idx, family=None):
         body.append(zupd)
 
     prog = {"init": init, "guard": H.TT, "body": body}
-    deg = 2 if (r.random() < 0.2 and fam != "three") else 1
+    deg = 2 if ((r.random() < 0.2 and fam != "three") or fam == "dep-init") else 1
     return {"id": f"gen-{idx}", "family": fam, "program": prog, "features": sorted(feats),
             "params": sorted(set(params)), "inv_deg": deg,
             "engineered": None if perturbed else {"k": H.fr_str(k), "Q": f"{H.fr_str(q)}*x - ({H.fr_str(p)})*y"}}
